@@ -41,6 +41,8 @@ type Knobs struct {
 	Lazy         bool // HTTP/2 only: never close the request body on its own after the handler returned
 	PostAccept   int  // bytes accepted after the handler returned before the request body is closed (HTTP/2)
 	ExtraHeaders bool
+	UpScript     []int // scripted read sizes (enumeration worlds); nil: use UpFrag
+	DownScript   []int
 	OneByteMax   int // one-byte delivery applies only to the first OneByteMax bytes of a direction (0: all)
 
 	// faults
@@ -343,6 +345,12 @@ func (n *Net) newExchange(c *Call, req *http.Request) *Exchange {
 	e.Up.SetFrag(c.K.UpFrag, c.K.UpEOFData)
 	e.Down.SetFrag(c.K.DownFrag, c.K.DownEOFData)
 	e.Up.oneByteMax, e.Down.oneByteMax = c.K.OneByteMax, c.K.OneByteMax
+	if c.K.UpScript != nil {
+		e.Up.SetScript(c.K.UpScript, c.K.UpEOFData)
+	}
+	if c.K.DownScript != nil {
+		e.Down.SetScript(c.K.DownScript, c.K.DownEOFData)
+	}
 	e.Down.SetCtx(&c.Ctx)
 	if c.K.DownCutAt >= 0 {
 		e.Down.SetCut(c.K.DownCutAt, c.K.DownCutErr)
@@ -546,7 +554,14 @@ func (e *Exchange) finishHandler() {
 		}
 	}
 	e.Trailer = tr
-	e.Down.Finish(io.EOF)
+	if e.FailedWrite {
+		// the connection broke while the handler was writing: the client never
+		// sees a clean end of the body, nor trailers
+		e.Trailer = nil
+		e.Down.Finish(errors.New("read tcp 10.0.0.1:443: connection reset by peer"))
+	} else {
+		e.Down.Finish(io.EOF)
+	}
 	e.cancelSrv()
 	e.Up.Abort(errors.New("http: invalid Read on closed Body"))
 	// What happens to a request body the handler did not finish reading.
